@@ -18,11 +18,18 @@
                           the path exists, ends in v, and its factor is size u / size v of Spec/Units
       linear / inverse / transitive as corollaries for all amounts
    5. kinds               dyn_convert never yields a unit of another kind (any evaluator)
-   6. arithmetic          Items.calculate on quantities (any number algebra)
+   6. arithmetic          Items.calculate on quantities (any number algebra); the rule function
+                          dynamic_type_convert; quantities of different kinds do not combine
+   6b. separators         basic_execute and dyn_convert do not depend on the decimal / thousands
+                          separator (all algebras, configurations, inputs)
    7. binary64            the faithful model (basic_execute on the substituted string) agrees with
-                          the abstract step on samples; end-to-end examples *)
+                          the abstract step on samples x every code, and dyn_convert with the
+                          abstract walk on every ordered pair for one amount; end-to-end examples
+
+   The one link left to the correspondence check: [evaluates basic_execute default_config gstep]
+   for ALL amounts (print the amount, substitute, lex, parse, evaluate = amount * c resp. / c). *)
 From Coq Require Import QArith Qcanon.
-From SC.Model Require Import Base Num NumF64 NumQ FloatIO Types Config Parser Items RuleFns Api Run64 Corr.
+From SC.Model Require Import Base Num NumF64 NumQ FloatIO Types Config UiTokens Rx Post Parser Items Interp RuleFns Rules Lexer Api Run64 Corr.
 From SC.Spec Require Import Units.
 From SC.Gen Require Import ConfigData.
 From Coq Require Import Floats.
@@ -478,18 +485,26 @@ Proof.
     apply spec_eqb_eq in H1 as [H1 _]. exact H1.
 Qed.
 
-Definition pair_ok (u v : dyntype float) : bool :=
+Definition pair_ok_on (T : list (str * list (N * dyntype float))) (C : list type_conv) (u v : dyntype float) : bool :=
   match unit_spec u, unit_spec v with
   | Some (ku, su), Some (kv, sv) =>
     if kind_eqb ku kv then
       forallb (fun name =>
-                 match conv_path TYPES CONVS u name with
+                 match conv_path T C u name with
                  | Some (path, t) => uref_eqb (uref t) (uref v) && Qc_eq_bool (path_factor path) (factor su sv)
                  | None => false
                  end) (dt_names v)
     else true
   | _, _ => false
   end.
+
+Definition pair_ok := pair_ok_on TYPES CONVS.
+
+(* the rows that break the table, by first names (if [pairs_ok_b] below ever fails:
+   Eval vm_compute in offending_on TYPES CONVS) *)
+Definition offending_on (T : list (str * list (N * dyntype float))) (C : list type_conv) : list (str * str) :=
+  flat_map (fun u => flat_map (fun v => if pair_ok_on T C u v then []
+                                        else [(hd [] (dt_names u), hd [] (dt_names v))]) (units_of T)) (units_of T).
 
 Lemma pairs_ok_b : forallb (fun u => forallb (pair_ok u) UNITS) UNITS = true.
 Proof. vm_compute. reflexivity. Qed.
@@ -502,7 +517,7 @@ Theorem factor_table : forall u v name k su sv,
 Proof.
   intros u v name k su sv Hu Hv Hn Hsu Hsv.
   pose proof pairs_ok_b as H. rewrite forallb_forall in H. specialize (H u Hu).
-  rewrite forallb_forall in H. specialize (H v Hv). unfold pair_ok in H. rewrite Hsu, Hsv in H.
+  rewrite forallb_forall in H. specialize (H v Hv). unfold pair_ok, pair_ok_on in H. rewrite Hsu, Hsv in H.
   replace (kind_eqb k k) with true in H by (destruct k; reflexivity).
   rewrite forallb_forall in H. specialize (H name Hn).
   destruct (conv_path TYPES CONVS u name) as [[path t]|]; [|discriminate].
@@ -588,6 +603,26 @@ Proof.
   - exact Ht.
   - intro q. rewrite run_q_linear, Hf. reflexivity.
 Qed.
+
+(* the check is sensitive: with the factors config.json had before the repair c1cbb1e (kilogram
+   down to hectogram "* 1000", byte down to bit "* 1024") the offending rows are computed *)
+Definition with_down (grp : string) (idx : N) (code : string) (T : list (str * list (N * dyntype float))) :=
+  map (fun g => (fst g, map (fun e =>
+     if str_eqb (fst g) (s grp) && N.eqb (fst e) idx then
+       (fst e, {| dt_group := dt_group (snd e); dt_index := dt_index (snd e); dt_format := dt_format (snd e);
+                  dt_parse := dt_parse (snd e); dt_up := dt_up (snd e); dt_down := s code;
+                  dt_names := dt_names (snd e); dt_digits := dt_digits (snd e); dt_round := dt_round (snd e);
+                  dt_rm := dt_rm (snd e) |})
+     else e) (snd g))) T.
+
+Theorem old_factors_refuted :
+  offending_on TYPES CONVS = [] /\
+  offending_on (with_down "metric-weight" 7 "{value} * 1000" TYPES) CONVS
+  = flat_map (fun u => map (fun v => (s u, s v)) ["oz"; "lb"; "st"; "mg"; "cg"; "dg"; "g"; "dag"; "hg"]%string)
+             ["kg"; "tonne"]%string /\
+  offending_on (with_down "memory" 2 "{value} * 1024" TYPES) CONVS
+  = map (fun u => (s u, s "bit")) ["byte"; "kb"; "mb"; "gb"; "tb"; "pb"; "eb"; "zb"; "yb"]%string.
+Proof. vm_compute. repeat split; reflexivity. Qed.
 
 (* ------------------------------------------------------------------------------------- *)
 (* 5. kinds                                                                               *)
@@ -687,6 +722,185 @@ Qed.
 
 End Arith.
 
+(* the rule behind `<quantity> to <name>` (dynamic_type_convert): the token it yields *)
+Section Rule.
+Context {F : Type} {NF : Num F}.
+Variable bexec : config F -> str -> res (option F).
+Variable cfg : config F.
+
+Theorem rule_convert : forall vs fs target number u src,
+  has "source" fs = true -> has "type" fs = true ->
+  get_text vs (s "type") fs = Some target ->
+  get_dynamic_type vs (s "source") fs = Some (number, u) ->
+  unit_of cfg u = Some src ->
+  dynamic_type_convert bexec cfg vs fs =
+  match dyn_convert bexec cfg number src target with
+  | Ok (Some (x, d)) => Ok (Some (TDynamicType x (uref d)))
+  | Ok None => Ok None
+  | Panic site => Panic site
+  end.
+Proof.
+  intros vs fs target number u src H1 H2 Ht Hd Hu. unfold dynamic_type_convert.
+  rewrite H1, H2, Ht, Hd, Hu. cbn [andb].
+  destruct (dyn_convert bexec cfg number src target) as [[[x d]|]|site]; reflexivity.
+Qed.
+
+End Rule.
+
+(* quantities of different kinds do not add, subtract or divide, whatever the evaluator *)
+Theorem calc_cross_kind : forall (bexec : config float -> str -> res (option float)) x u y u' du du' op ku su ku' su',
+  unit_of default_config u = Some du -> unit_of default_config u' = Some du' ->
+  In du UNITS -> In du' UNITS ->
+  unit_spec du = Some (ku, su) -> unit_spec du' = Some (ku', su') -> ku <> ku' ->
+  forall r, calculate bexec default_config (IDynamicType x u) (IDynamicType y u') op <> Ok (Some r).
+Proof.
+  intros bexec x u y u' du du' op ku su ku' su' Hu Hu' Hin Hin' Hs Hs' Hk r H.
+  unfold unit_spec in Hs. destruct (dt_names du) as [|name0 rest] eqn:Hn; [discriminate|].
+  rewrite (calc_quantities bexec default_config x u y u' du du' name0 rest op Hu Hu' Hn) in H.
+  destruct (dyn_convert bexec default_config y du' name0) as [[[y' d]|]|site] eqn:Hc; try discriminate.
+  exact (cross_kind_declines bexec y du' name0 ku su ku' su' Hin' Hs Hs' Hk y' d Hc).
+Qed.
+
+(* ------------------------------------------------------------------------------------- *)
+(* 6b. every separator configuration: the evaluator of the codes does not read the separators *)
+(* ------------------------------------------------------------------------------------- *)
+Section Separators.
+Context {F : Type} {NF : Num F}.
+Variable lx : lexdata.
+Variable ck : clock.
+
+Lemma calculate_unit_nb (cfg cfg' : config F) x src tgt g :
+  calculate_unit no_bexec cfg' x src tgt g = calculate_unit no_bexec cfg x src tgt g.
+Proof.
+  unfold calculate_unit. destruct (N.eqb (dt_index src) (dt_index tgt)); [reflexivity|].
+  destruct (nassoc (dt_index src) g); [|reflexivity]. cbn [unit_loop]. reflexivity.
+Qed.
+
+Lemma dyn_convert_nb (cfg cfg' : config F) x src name :
+  cf_types cfg' = cf_types cfg -> cf_type_conv cfg' = cf_type_conv cfg ->
+  dyn_convert no_bexec cfg' x src name = dyn_convert no_bexec cfg x src name.
+Proof.
+  intros Ht Hc. unfold dyn_convert. rewrite Ht, Hc.
+  destruct (assoc (dt_group src) (cf_types cfg)) as [group|]; [|reflexivity].
+  destruct (find_by_name name (map snd group)) as [target|].
+  - rewrite (calculate_unit_nb cfg cfg'). reflexivity.
+  - destruct (find _ (cf_type_conv cfg)) as [tc|]; [|reflexivity].
+    destruct (str_eqb (tc_src_name tc) (dt_group src));
+      (match goal with |- context [nassoc ?i group] => destruct (nassoc i group) as [bridge|]; [|reflexivity] end);
+      rewrite (calculate_unit_nb cfg cfg'); reflexivity.
+Qed.
+
+Lemma calculate_nb (cfg cfg' : config F) l r op :
+  cf_types cfg' = cf_types cfg -> cf_type_conv cfg' = cf_type_conv cfg -> cf_rates cfg' = cf_rates cfg ->
+  calculate no_bexec cfg' l r op = calculate no_bexec cfg l r op.
+Proof.
+  intros Ht Hc Hr. destruct l; destruct r; cbn [calculate]; try reflexivity.
+  - unfold convert_currency, rate_of. rewrite Hr. reflexivity.
+  - unfold unit_of. rewrite Ht.
+    destruct (assoc (u_group u) (cf_types cfg)) as [g|]; [|reflexivity].
+    destruct (nassoc (u_index u) g) as [du|]; [|reflexivity].
+    destruct (assoc (u_group u0) (cf_types cfg)) as [g'|]; [|reflexivity].
+    destruct (nassoc (u_index u0) g') as [du'|]; [|reflexivity].
+    destruct (dt_names du) as [|name0 rest]; [reflexivity|].
+    rewrite (dyn_convert_nb cfg cfg' _ _ _ Ht Hc). reflexivity.
+Qed.
+
+Lemma execute_ast_nb (cfg cfg' : config F) :
+  cf_types cfg' = cf_types cfg -> cf_type_conv cfg' = cf_type_conv cfg -> cf_rates cfg' = cf_rates cfg ->
+  forall a vs, execute_ast no_bexec cfg' vs a = execute_ast no_bexec cfg vs a.
+Proof.
+  intros Ht Hc Hr. induction a as [| | | |l IHl op r IHr|op e IHe|name e IHe| |]; intro vs; cbn [execute_ast]; try reflexivity.
+  - rewrite IHl. destruct (execute_ast no_bexec cfg vs l) as [[[cl|m] vs1]|site]; cbn [bind]; try reflexivity.
+    rewrite IHr. destruct (execute_ast no_bexec cfg vs1 r) as [[[cr|m] vs2]|site]; cbn [bind]; try reflexivity.
+    assert (E : calculate_item no_bexec cfg' op cl cr = calculate_item no_bexec cfg op cl cr).
+    { unfold calculate_item. destruct cl; try reflexivity. destruct cr; try reflexivity.
+      rewrite !(calculate_nb cfg cfg' _ _ _ Ht Hc Hr). reflexivity. }
+    rewrite E. reflexivity.
+  - rewrite IHe. reflexivity.
+  - rewrite IHe. reflexivity.
+Qed.
+
+(* SmartCalc::basic_execute reads its text with '.' and no grouping and evaluates it without
+   the separators: setting the decimal or the thousands separator does not change it *)
+Theorem basic_execute_separators : forall (cfg : config F) d t data,
+  basic_execute lx ck (set_fmt cfg (cf_money cfg) (cf_number cfg) (cf_percent cfg) d t (cf_tz cfg)) data
+  = basic_execute lx ck cfg data.
+Proof.
+  intros cfg d t data. unfold basic_execute.
+  destruct (split_lines data []) as [|line [|l2 ls]]; try reflexivity.
+  destruct line as [|c0 line]; [reflexivity|].
+  change (set_fmt (set_fmt cfg (cf_money cfg) (cf_number cfg) (cf_percent cfg) d t (cf_tz cfg))
+                  (cf_money (set_fmt cfg (cf_money cfg) (cf_number cfg) (cf_percent cfg) d t (cf_tz cfg)))
+                  (cf_number (set_fmt cfg (cf_money cfg) (cf_number cfg) (cf_percent cfg) d t (cf_tz cfg)))
+                  (cf_percent (set_fmt cfg (cf_money cfg) (cf_number cfg) (cf_percent cfg) d t (cf_tz cfg)))
+                  [46%N] []
+                  (cf_tz (set_fmt cfg (cf_money cfg) (cf_number cfg) (cf_percent cfg) d t (cf_tz cfg))))
+    with (set_fmt cfg (cf_money cfg) (cf_number cfg) (cf_percent cfg) [46%N] [] (cf_tz cfg)).
+  destruct (regex_tokinizer _ _ _ _ _ _) as [st1|site]; [|reflexivity]. cbn [bind].
+  destruct (alias_tokinizer _ _ _ _ _) as [st2|site]; [|reflexivity]. cbn [bind].
+  destruct (ts_infos st2) as [|i0 infos]; [reflexivity|].
+  destruct (parse _ _) as [[a|m|] vs]; try reflexivity.
+  rewrite (execute_ast_nb cfg (set_fmt cfg (cf_money cfg) (cf_number cfg) (cf_percent cfg) d t (cf_tz cfg)));
+    reflexivity.
+Qed.
+
+(* hence the whole conversion is the same under every separator configuration *)
+Section Congruence.
+Variable bexec : config F -> str -> res (option F).
+Variables cfg cfg' : config F.
+Hypothesis Hb : forall code, bexec cfg' code = bexec cfg code.
+
+Lemma unit_loop_cong : forall fuel group up ti x next si,
+  unit_loop bexec fuel cfg' group up ti x next si = unit_loop bexec fuel cfg group up ti x next si.
+Proof.
+  induction fuel as [|f IH]; intros; cbn [unit_loop]; [reflexivity|].
+  rewrite Hb. destruct (bexec cfg _) as [[n'|]|site]; cbn [bind]; try reflexivity.
+  destruct (nassoc (Z.to_N si) group) as [next'|]; [|reflexivity].
+  destruct (N.eqb (dt_index next') ti); [reflexivity|].
+  destruct (negb up && (si =? 0)); [reflexivity|]. apply IH.
+Qed.
+
+Lemma calculate_unit_cong x src tgt g :
+  calculate_unit bexec cfg' x src tgt g = calculate_unit bexec cfg x src tgt g.
+Proof.
+  unfold calculate_unit. destruct (N.eqb (dt_index src) (dt_index tgt)); [reflexivity|].
+  destruct (nassoc (dt_index src) g); [|reflexivity]. apply unit_loop_cong.
+Qed.
+
+Lemma dyn_convert_cong x src name :
+  cf_types cfg' = cf_types cfg -> cf_type_conv cfg' = cf_type_conv cfg ->
+  dyn_convert bexec cfg' x src name = dyn_convert bexec cfg x src name.
+Proof.
+  intros Ht Hc. unfold dyn_convert. rewrite Ht, Hc.
+  destruct (assoc (dt_group src) (cf_types cfg)) as [group|]; [|reflexivity].
+  destruct (find_by_name name (map snd group)) as [target|].
+  - rewrite calculate_unit_cong. reflexivity.
+  - destruct (find _ (cf_type_conv cfg)) as [tc|]; [|reflexivity].
+    destruct (str_eqb (tc_src_name tc) (dt_group src));
+      (match goal with |- context [nassoc ?i group] => destruct (nassoc i group) as [bridge|]; [|reflexivity] end);
+      rewrite calculate_unit_cong;
+      (match goal with |- context [calculate_unit bexec cfg x src ?b group] =>
+         destruct (calculate_unit bexec cfg x src b group) as [[n1|]|site] end); cbn [bind]; try reflexivity;
+      rewrite Hb; (match goal with |- context [bexec cfg ?c] => destruct (bexec cfg c) as [[n2|]|site] end);
+      cbn [bind]; try reflexivity;
+      (match goal with |- context [assoc ?k (cf_types cfg)] => destruct (assoc k (cf_types cfg)) as [g|]; [|reflexivity] end);
+      (match goal with |- context [find_by_name name (map snd ?g)] => destruct (find_by_name name (map snd g)) as [tgt|] end); try reflexivity;
+      (match goal with |- context [match nassoc ?i ?g with Some _ => _ | None => _ end] => destruct (nassoc i g) as [src2|]; [|reflexivity] end);
+      rewrite calculate_unit_cong; reflexivity.
+Qed.
+
+End Congruence.
+
+Theorem convert_separators : forall (cfg : config F) d t x src name,
+  dyn_convert (basic_execute lx ck) (set_fmt cfg (cf_money cfg) (cf_number cfg) (cf_percent cfg) d t (cf_tz cfg)) x src name
+  = dyn_convert (basic_execute lx ck) cfg x src name.
+Proof.
+  intros cfg d t x src name. apply dyn_convert_cong; try reflexivity.
+  intro code. apply basic_execute_separators.
+Qed.
+
+End Separators.
+
 (* ------------------------------------------------------------------------------------- *)
 (* 7. binary64: the faithful evaluator on samples, and end-to-end examples                 *)
 (* ------------------------------------------------------------------------------------- *)
@@ -701,10 +915,31 @@ Definition sample_ok (x : float) (code : str) : bool :=
   | _, _ => false
   end.
 
+#[local] Set Warnings "-inexact-float".
 Definition samples : list float :=
   [1; 2.5; -3; 0.1; 1234567.891; 0.0000001; 123456789012345680000; -0.000123; 0]%float.
 
 Theorem evaluates_on_samples : forallb (fun x => forallb (sample_ok x) raw_codes) samples = true.
+Proof. vm_compute. reflexivity. Qed.
+
+(* the faithful model against the abstract walk, bit for bit, on EVERY ordered pair of one kind
+   (first name of the target) for one amount: dyn_convert with the real basic_execute yields
+   run_path gstep (conv_path ..) *)
+Definition faithful_pair_ok (x : float) (u v : dyntype float) : bool :=
+  match unit_spec u, unit_spec v, dt_names v with
+  | Some (ku, _), Some (kv, _), name :: _ =>
+    if kind_eqb ku kv then
+      match conv_path TYPES CONVS u name, dyn_convert (basic_execute LX CK0) default_config x u name with
+      | Some (path, t), Ok (Some (y, t')) =>
+        Z.eqb (f64_to_bits y) (f64_to_bits (run_path gstep path x)) && uref_eqb (uref t) (uref t')
+      | _, _ => false
+      end
+    else true
+  | _, _, _ => false
+  end.
+
+Theorem faithful_pairs_sample :
+  forallb (fun u => forallb (faithful_pair_ok 2.5 u) UNITS) UNITS = true.
 Proof. vm_compute. reflexivity. Qed.
 
 Definition CK : clock := {| ck_today := 19000; ck_year := 2022 |}.
